@@ -6,9 +6,16 @@ CENSUS = {
     'C03': ['Storage::filter_block' + S, 'Storage::update_block_number' + S],
     'C04': ['Storage::rollback_to_block' + S],
     'C08': ['Storage::add_matched_blocks' + S, 'Storage::remove_matched_blocks' + S, 'Storage::update_min_filtered_block_number' + S],
-    'C09': ['Storage::update_filter_scripts' + S],
+    'C09': ['Storage::update_filter_scripts' + S[:-2] + '|Storage::clear_matched_blocks|Storage::filter_block)$', 'Storage::clear_matched_blocks' + S],
+    'C11': ['~Peers::get_peers_which_have_timeout', '~Peers::get_peers_which_require_new_state', '~Peers::get_peers_which_require_new_proof',
+            '~Peers::get_peers_which_require_more_check_points', '~Peers::get_peers_which_require_more_latest_block_filter_hashes',
+            '~Peers::get_all_proved_check_points', '~Peers::get_all_prove_states', '~Peers::find_if_a_header_is_proved',
+            '~Peers::find_header_in_proved_state', '~Peers::get_best_proved_peers'],
     'C16': ['Storage::add_fetched_header' + S, 'Storage::add_fetched_tx' + S, '<ChainRpcImpl as ChainRpc>::fetch_header',
-            '<TransactionRpcImpl as TransactionRpc>::fetch_transaction', 'Storage::get_transaction_with_header'],
+            '<TransactionRpcImpl as TransactionRpc>::fetch_transaction', 'Storage::get_transaction_with_header',
+            '~+Peers::mark_fetching_headers_missing', '~+Peers::mark_fetching_txs_missing', '~+Peers::mark_fetching_headers_timeout',
+            '~+Peers::mark_fetching_txs_timeout', '~+Peers::fetching_idle_headers', '~+Peers::fetching_idle_txs',
+            '~Peers::get_headers_to_fetch', '~Peers::get_txs_to_fetch'],
     'C18': ['+PendingTxs::push', '~+PendingTxs::fetch_transaction_hashes_for_broadcast'],
     'C01': ['check_if_response_is_matched', 'check_continuous_headers', 'verify_mmr_proof',
             '<HeaderView as HeaderUtils>::is_parent_of', '<VerifiableHeader as VerifiableHeaderPatch>::patched_is_valid',
